@@ -72,12 +72,14 @@ RECURSIVE TrimZeros(_)
 TrimZeros(s) == IF Len(s) > 0 /\ SubSeq(s, Len(s), Len(s)) = "0" THEN TrimZeros(SubSeq(s, 1, Len(s) - 1)) ELSE s
 RECURSIVE Pow5(_)
 Pow5(k) == IF k = 0 THEN 1 ELSE 5 * Pow5(k - 1)
-\* exact decimal expansion of n / 2^e (e <= MaxFltExp keeps every intermediate below 2^31)
+\* exact decimal expansion of n / 2^e: the e fraction digits one by one (remainder * 10 div 2^e), so that no
+\* intermediate exceeds 10 * 2^e (the closed form fraction * 5^e overflows TLC's 32-bit integers from e = 10 on)
+RECURSIVE FracDigits(_, _, _)
+FracDigits(r, e, k) == IF k = 0 THEN "" ELSE ToString((r * 10) \div Pow2(e)) \o FracDigits((r * 10) % Pow2(e), e, k - 1)
 FltDigits(n, e) ==
   LET a == Abs(n)
       ip == a \div Pow2(e)
-      fp == (a % Pow2(e)) * Pow5(e)               \* fraction * 10^e
-      fs == TrimZeros(Digits(fp, e))
+      fs == TrimZeros(FracDigits(a % Pow2(e), e, e))
   IN [neg |-> n < 0, ip |-> ToString(ip), fs |-> fs]
 ShowFlt(n, e) == LET d == FltDigits(n, e) IN
   (IF d.neg THEN "-" ELSE "") \o d.ip \o (IF d.fs = "" THEN "" ELSE "." \o d.fs)
